@@ -321,3 +321,59 @@ Theorem C13_lane_nz_scan_eq : forall zz out, List.length zz = 16%nat -> List.len
   nz_lane zz out = nz_go zz out.
 Proof. exact lane_nz_scan_eq. Qed.
 Print Assumptions C13_lane_nz_scan_eq.
+
+(** ** Wave 6 *)
+From Webp Require Import Arch.ArchInt32 Arch.ArchLaneCalls.
+From WebpGen Require LaneCalls.
+
+(** 32-bit arithmetic: the arm64 routine iTransformOneNEON (32-bit lanes) and
+    the portable Go IDCT on every target whose [int] is 32 bits wide
+    (386 / arm / mips: [(a * 35468) >> 16] wraps) equal the 64-bit portable IDCT on
+    every block with |c| <= 15735 ... *)
+Theorem C13_idct32_eq : forall coeffs pred, in_range32 coeffs -> Forall byte pred ->
+  idct32 coeffs pred = transform_one coeffs pred.
+Proof. exact idct32_eq. Qed.
+Print Assumptions C13_idct32_eq.
+
+(** ... the box is maximal ... *)
+Theorem C13_int32_box_maximal :
+  Forall (fun c => - (kInt32Box + 1) <= c <= kInt32Box + 1) int32_block_15736 /\
+  idct32 int32_block_15736 (repeat 128 16) <> transform_one int32_block_15736 (repeat 128 16).
+Proof. exact int32_box_maximal. Qed.
+Print Assumptions C13_int32_box_maximal.
+
+(** ... and beyond it the result depends on the width of int: two coefficients
+    32767 = int16(1057 * 31), deliverable by a valid stream, give different
+    samples in 32-bit and in 64-bit arithmetic. *)
+Theorem C13_idct_int_width_differs_refuted :
+  Forall int16 int32_block_sparse /\
+  idct32 int32_block_sparse (repeat 128 16) = Ok [255; 0; 255; 0; 255; 255; 0; 0; 255; 255; 0; 0; 0; 0; 255; 255] /\
+  transform_one int32_block_sparse (repeat 128 16) = Ok [255; 255; 0; 0; 255; 255; 0; 0; 255; 255; 0; 0; 0; 0; 255; 255].
+Proof. exact idct_int_width_differs_refuted. Qed.
+Print Assumptions C13_idct_int_width_differs_refuted.
+
+(** Checked facts about the source (regenerated every run). *)
+
+(** Every call of a lane kernel in the encoder takes its coefficient input along
+    the chain the range theorems assume (bytes -> FDCT -> quantise -> dequantise
+    (-> WHT) -> IDCT); an unclassifiable call site fails this obligation. *)
+Theorem C13_lane_events_follow_chain : forallb event_ok LaneCalls.lane_events = true.
+Proof. exact lane_events_follow_chain. Qed.
+Print Assumptions C13_lane_events_follow_chain.
+
+Theorem C13_lane_events_cover_all_kernels :
+  forallb (fun k => existsb (fun e => String.eqb (snd (fst (fst e))) k) LaneCalls.lane_events)
+          ["FTransformDirect"; "FTransformWHT"; "QuantizeCoeffs"; "TrellisQuantizeBlock";
+           "DequantCoeffs"; "TransformWHT"; "ITransformDirect"]%string = true.
+Proof. exact lane_events_cover_all_kernels. Qed.
+Print Assumptions C13_lane_events_cover_all_kernels.
+
+Theorem C13_lane_buffer_readers_reviewed : subset LaneCalls.lane_buffer_readers reviewed_readers = true.
+Proof. exact lane_buffer_readers_reviewed. Qed.
+Print Assumptions C13_lane_buffer_readers_reviewed.
+
+(** Every assembly routine of the module (amd64 and arm64) has a lane model with a
+    theorem above or an explicit "partial" entry; no stale entries. *)
+Theorem C13_asm_inventory_covered : asm_inventory_ok = true.
+Proof. exact asm_inventory_covered. Qed.
+Print Assumptions C13_asm_inventory_covered.
